@@ -266,6 +266,37 @@ def _run_name(name, ctx, tb, rng, cell_sample):
                 is_err = not isinstance(h, list) and xl.kind(h) == 'err'
                 judge(ctx, name, args, lambda a=args: tb.call(name, a), 'direct',
                       expect_error=is_err and not exempt(name, pos, args), pos=pos)
+        # a second benign base: numbers negated (other branches of the
+        # functions, e.g. two's complement in DEC2BIN); an error argument must
+        # surface there as well
+        alt = [-a if isinstance(a, (int, float)) and not isinstance(a, bool) and a else a
+               for a in base]
+        if alt != base:
+            for pos in range(n):
+                for h in (E('#N/A'), E('#DIV/0!')):
+                    args = list(alt)
+                    args[pos] = h
+                    ctx.open_case({'name': name, 'pos': pos, 'base': 'negated'})
+                    ctx.count('monitor.negated-base')
+                    judge(ctx, name, args, lambda a=args: tb.call(name, a), 'direct',
+                          expect_error=not exempt(name, pos, args), pos=pos)
+        # an error in one array opposite a blank in another one (functions
+        # that drop incomplete pairs must look for errors first)
+        for p_ in range(min(n, 3)):
+            for q_ in range(min(n, 3)):
+                if p_ == q_:
+                    continue
+                for col in (True, False):
+                    a1 = [1.0, E('#DIV/0!'), 3.0, 6.0]
+                    a2 = [2.0, sh.EMPTY, 5.0, 4.0]
+                    args = list(base)
+                    args[p_] = [[x] for x in a1] if col else [a1]
+                    args[q_] = [[x] for x in a2] if col else [a2]
+                    ctx.open_case({'name': name, 'pos': p_, 'opposite': q_})
+                    ctx.count('monitor.error-opposite-blank')
+                    judge(ctx, name, args, lambda a=args: tb.call(name, a), 'direct',
+                          expect_error=not exempt(name, p_, args) and _base(name) not in (
+                              'IF', 'IFS', 'SWITCH', 'CHOOSE'), pos=p_)  # selectors changed
         for _ in range(6):
             args = [rng.choice(HOSTILE) for _ in range(n)]
             judge(ctx, name, args, lambda a=args: tb.call(name, a), 'direct',
